@@ -66,6 +66,14 @@ CHECKS = {
         assumptions=['cut points exactly between frames are valid shorter streams and are excluded', 'content bit flips are sampled (seeded), checksum bit flips and cut points of small wires are exhaustive'],
         coverage_extra=lambda t: dict(cut_points_enumerated=t.probes.get('c09.cut_points', 0), wires_cut_exhaustively=t.probes.get('c09.frames_cut_exhaustively', 0), bit_flips=t.probes.get('c09.bit_flips', 0)),
     ),
+    'C07': dict(
+        level='exploration',
+        batches=[dict(scenario='c07pure', flavour='P', quick=9000, thorough=300000), dict(scenario='c07pure', flavour='A', quick=900, thorough=20000),
+                 dict(scenario='c07mt', flavour='P', quick=1200, thorough=40000)],
+        rule='pairs of executions of the same logical call sequence differing in one nuisance axis: H prior context history (frames with other parameters, abandoned frame, dst-too-small / pledge / injected-allocation failures + reset, index jump), A memory (static vs heap context, allocator placement, source alignment, scattered slices), O output-capacity sequences, W/S worker count and simulated schedule (c07mt); distinct = distinct plan signature (x schedule signature for c07mt); non-trivial = non-empty input and at least one frame (c07mt: at least 2 jobs)',
+        real=REAL_COMMON, stub=['allocator placement and faults (simalloc)', 'pthread primitives (simsched, c07mt)', 'guarded hooks: probe for the stream-end shortcut, index jump'],
+        assumptions=['logical call = (slice, directive) drained by as many physical calls as the output capacities require', 'c07mt restricts histories to continue + final end because how much a non-blocking MT call consumes is schedule dependent'],
+    ),
 }
 
 def default_root(tier):
